@@ -88,6 +88,7 @@ class SD:
         lp = P(ai, param_at(ai, 0, "options"))
         pol = InlineOnly(names=(), props=True, max_depth=1)
         pol.transparent_helpers = False
+        pol.inline_properties = True
         cands = {}
         for p in engine(self.prog, pol).paths(ai, recv=ENTRY):
             for e in p.events:
@@ -1127,7 +1128,7 @@ class SD:
         ai = self.m(ENTRY, "assign_option_index")
         lp = P(ai, param_at(ai, 0, "options"))
         pol_ai = InlineOnly(names=(), props=True, max_depth=1)
-        pol_ai.transparent_helpers = False  # the placing function is analysed on its own above
+        pol_ai.opaque = {ao.qual}  # the placing function is analysed on its own above: its call stays a call
         for p in [p for p in self.paths(ai, ENTRY, eng=engine(prog, pol_ai)) if p.returns()]:
             rv = p.retval()
             calls = calls_to(p, ao.qual)
